@@ -312,3 +312,129 @@ def stack_plan(ctx):
             out.append({'list': lst, 'classes': cnames, 'options': opts, 'node': n, 'line': n.lineno})
     out.sort(key=lambda d: d['line'])
     return b, out
+
+
+# ---------------------------------------------------------------------------
+# every token a filter puts into a tree is a new object (no aliasing between positions, trees or calls)
+
+def check_fresh_insertions(ctx, rid, modules=('sqlparse.filters.',)):
+    """A token object occupies one position of one tree: StripWhitespaceFilter and the reindent filters rewrite
+    `.value` of whitespace tokens in place, so a token object that is inserted at two positions (a class-level or
+    module-level constant, a local created once outside the loop that inserts it) changes at all of them together and
+    keeps the change for the next call.  Every inserted token must be created at the insertion: a constructor call, a
+    factory call all of whose returns are constructor calls, or a local bound to one of those inside the same loop body."""
+    repo, folder = ctx.repo, ctx.folder
+    cg = get_cg(ctx)
+
+    def is_ctor(c, f):
+        if not isinstance(c, ast.Call):
+            return False
+        try:
+            v = folder.eval(c.func, f.mod)
+        except NotConst:
+            return False
+        return isinstance(v, ClsRef)
+
+    def fresh(e, f, depth=0):
+        """(ok, why)"""
+        if isinstance(e, ast.IfExp):
+            a, wa = fresh(e.body, f, depth)
+            b, wb = fresh(e.orelse, f, depth)
+            return (a and b), (wa if not a else wb)
+        if is_ctor(e, f):
+            return True, 'constructor call'
+        if isinstance(e, ast.Call) and depth < 3:
+            targets = [t for t in cg._resolve_name_value(e.func, f, f.mod, f.cls) if isinstance(t, Func)] if isinstance(e.func, ast.Name) else []
+            if isinstance(e.func, ast.Attribute) and is_name(e.func.value, 'self') and f.cls is not None or \
+                    (isinstance(e.func, ast.Attribute) and is_name(e.func.value, 'self') and f.parent is not None):
+                owner = f
+                while owner.cls is None and owner.parent is not None:
+                    owner = owner.parent
+                if owner.cls is not None:
+                    for c in [owner.cls] + [x for x in repo.subclasses(owner.cls) if x is not owner.cls]:
+                        m = repo.lookup_method(c, e.func.attr)
+                        if m is not None and m not in targets:
+                            targets.append(m)
+            if isinstance(e.func, ast.Name):
+                p = f
+                while p is not None:
+                    if e.func.id in p.nested and p.nested[e.func.id] not in targets:
+                        targets.append(p.nested[e.func.id])
+                    p = p.parent
+            if not targets:
+                return False, f'`{src(e)[:50]}` is not a constructor or a resolvable factory'
+            for t in targets:
+                rets = [r for r in own_nodes(t.node) if isinstance(r, ast.Return) and r.value is not None]
+                if not rets:
+                    return False, f'factory {t.short} returns nothing'
+                for r in rets:
+                    ok, why = fresh(r.value, t, depth + 1)
+                    if not ok:
+                        return False, f'factory {t.short} returns `{src(r.value)[:50]}`: {why}'
+            return True, 'factory call'
+        return False, f'`{src(e)[:60]}` is an existing object'
+
+    n = 0
+    for f in repo.funcs.values():
+        if not any(f.mod.name.startswith(m) for m in modules) or isinstance(f.node, ast.Lambda):
+            continue
+        gd = None
+        sites = []
+        for c in own_nodes(f.node):
+            tok = None
+            if isinstance(c, ast.Call) and isinstance(c.func, ast.Attribute):
+                if c.func.attr in ('insert_before', 'insert_after') and len(c.args) == 2:
+                    tok = c.args[1]
+                elif c.func.attr == 'insert' and is_attr(c.func.value, 'tokens') and len(c.args) == 2:
+                    tok = c.args[1]
+                elif c.func.attr == 'append' and is_attr(c.func.value, 'tokens') and len(c.args) == 1:
+                    tok = c.args[0]
+            elif isinstance(c, ast.Assign) and len(c.targets) == 1 and isinstance(c.targets[0], ast.Subscript) \
+                    and is_attr(c.targets[0].value, 'tokens') and not isinstance(c.targets[0].slice, ast.Slice):
+                tok = c.value
+            if tok is not None:
+                sites.append((c, tok))
+        if not sites:
+            continue
+        gd = Guards(f.node)
+        defs = local_defs(f.node)
+        name_sites = {}
+        for c, tok in sites:
+            if isinstance(tok, ast.Name):
+                name_sites.setdefault(tok.id, []).append(c)
+        for c, tok in sites:
+            n += 1
+            loc = f'{f.mod.relpath}:{c.lineno}'
+            if isinstance(tok, ast.Name):
+                ds = defs.get(tok.id, [])
+                ok, why = bool(ds), 'no local definition (parameter or outer variable)'
+                for d in ds:
+                    if isinstance(d, tuple):
+                        ok, why = False, f'`{tok.id}` comes from `{src(d[1])[:50]}`: an existing token'
+                        break
+                    ok, why = fresh(d, f)
+                    if not ok:
+                        break
+                    # the definition must be re-executed for every insertion: same loop nest
+                    dst = next((s for s in own_nodes(f.node) if isinstance(s, ast.Assign) and s.value is d), None)
+                    st = gd.stmt_of.get(id(c), c) if not isinstance(c, ast.stmt) else c
+                    l_ins = gd.loops.get(id(st), ())
+                    l_def = gd.loops.get(id(dst), ())
+                    if not all(any(lp is x for x in l_def) for lp in l_ins):
+                        ok, why = False, f'`{tok.id}` is created once outside the loop that inserts it'
+                        break
+                others = [o for o in name_sites.get(tok.id, []) if o is not c]
+                if ok and others:
+                    def excl(a, b):
+                        fa = {(e, p) for e, p in gd.facts(a) if e != '|'}
+                        fb = {(e, p) for e, p in gd.facts(b) if e != '|'}
+                        return any((e, not p) in fb for e, p in fa)
+                    if not all(excl(c, o) for o in others):
+                        ok, why = False, f'`{tok.id}` is inserted at {len(others) + 1} places'
+            else:
+                ok, why = fresh(tok, f)
+            ctx.ob(rid, f'fresh-insert:{f.short}:{src(tok)[:40]}:{[s[0] for s in sites].index(c)}', loc,
+                   f'{f.short}: the token inserted by `{src(c)[:60]}` is created at the insertion', ok,
+                   f'{why}: the same token object ends up at several positions / in several statements, and the in-place edits of the whitespace '
+                   'filters (token.value = ...) then change all of them at once')
+    return n
